@@ -6,7 +6,12 @@
 //! calling and cancelled clients race their load against "cancel#i". Every
 //! choice point is enumerated by DFS for small configurations and sampled by
 //! random walks for larger ones; the recorded event log is judged offline by
-//! `dl::check_history` (rules D1–D6).
+//! `dl::check_history` (rules D1–D6). With an LRU cache the iteration order of
+//! the `HashMap` a batch returns (which decides recency / eviction inside the
+//! DataLoader and normally depends on `RandomState`) is a choice of the
+//! schedule as well (`dl::OrderCtl`), so runs are deterministic and the DFS
+//! covers it. Thorough adds the same workload on real threads (`pool.rs`,
+//! relaxed cache reasoning) and a Miri run of `src/bin/miri_dl.rs`.
 
 use std::collections::{BTreeMap, BTreeSet, HashSet};
 use std::sync::atomic::{AtomicBool, AtomicU32, AtomicUsize, Ordering};
@@ -532,6 +537,20 @@ fn judge(run: &Run, acc: &mut Acc, mode: &str, cfg: &Cfg, cfg_hash: u64, ex: &Ex
         }
     }
     acc.c("cache_hits", out.cache_hits);
+    if mode == "threads" {
+        // the same kinds of events must also have been seen on real threads
+        acc.c("thread_mode_cache_hits", out.cache_hits);
+        acc.c("thread_mode_loads_checked", out.loads_checked);
+        for e in &ex.log {
+            match e {
+                Ev::Dropped { .. } => acc.c("thread_mode_dropped_waiters", 1),
+                Ev::BatchEnd { res: Err(_), .. } => acc.c("thread_mode_loader_errors", 1),
+                Ev::BatchStart { via_timer: false, .. } => acc.c("thread_mode_immediate_dispatches", 1),
+                Ev::BatchStart { via_timer: true, .. } => acc.c("thread_mode_timer_dispatches", 1),
+                _ => {}
+            }
+        }
+    }
     acc.c("loads_partly_cache_served", out.partial_hits);
     acc.c("loads_fully_cache_served", out.full_hits);
     acc.c("lru_evictions_in_model", out.evictions);
@@ -1275,7 +1294,16 @@ pub fn main() {
     run.set_max_samples(6);
     if run.is_thorough() {
         // the real-thread mode must have produced histories
-        run.require_counter("thread_mode_histories");
+        for c in [
+            "thread_mode_histories",
+            "thread_mode_cache_hits",
+            "thread_mode_dropped_waiters",
+            "thread_mode_loader_errors",
+            "thread_mode_immediate_dispatches",
+            "thread_mode_timer_dispatches",
+        ] {
+            run.require_counter(c);
+        }
     }
 
     // the monitor must flag the hand-made bad histories before it judges anything
